@@ -16,7 +16,7 @@ def gen(seed, family="mixed", size="small"):
     elif family == "sparse":
         nlps = r.choice([2, 3])
     else:
-        nlps = r.choice([2, 3, 4, 5, 6, 8] if size == "small" else [4, 6, 8, 10, 12])
+        nlps = r.choice([2, 3, 4, 5, 6, 8] if size == "small" else [4, 5, 6, 8])
     K = r.choice([3, 4, 5, 6])
     T = r.choice([2, 3, 4])
     maxdelay = {"ties": 1, "zerodelay": 2}.get(family, r.choice([2, 3, 5]))
@@ -30,7 +30,7 @@ def gen(seed, family="mixed", size="small"):
             b[-1] = (b[-1] + i) % 256  # same prefix, differ in the last byte
         payloads.append({"size": sz, "padd": r.randrange(K), "bytes": b})
     P = len(payloads)
-    need_lo, need_hi = (4, 9) if size == "small" else (8, 20)
+    need_lo, need_hi = (4, 9) if size == "small" else (10, 22)
     need = [r.randint(need_lo, need_hi) for _ in range(nlps)]
     cap = [n + r.randint(1, 4) for n in need]
     endmask = [1] * K
@@ -38,6 +38,15 @@ def gen(seed, family="mixed", size="small"):
         endmask = [r.choice([0, 1, 1]) for _ in range(K)]
         if not any(endmask):
             endmask[0] = 1
+    if family == "time0":
+        # some LPs satisfy their predicate at their very first event, which carries timestamp 0
+        for i in range(nlps):
+            if i % 2 == 0:
+                need[i] = 1
+                cap[i] = r.randint(3, 6)
+            else:
+                need[i] += 6
+                cap[i] = need[i] + 4
     if family == "initdone":
         for i in range(nlps):
             if r.random() < 0.5:
@@ -65,6 +74,9 @@ def gen(seed, family="mixed", size="small"):
             s = mk_send(T + 1, allow_zero=False)
             # initial events may carry timestamp 0 (any type sorts after LP_INIT=65534)
             s["delay"] = r.choice([0, 0, 1, 2, 3]) if family in ("time0", "mixed", "ties") else r.randint(1, 3)
+            if family == "time0":
+                s["delay"] = 0
+                s["drule"] = 0
             sends.append(s)
         init.append(sends)
     if not any(init):
